@@ -173,8 +173,15 @@ class AirTouchSocket(Generic[comms.Hdr]):
     async def close(self) -> None:
         """Close the socket to the AirTouch."""
         if self.is_open:
-            await self._disconnect()
             self.is_open = False
+            # Stop any pending connection attempts and the read loop so that
+            # nothing happens on this socket after it has been closed.
+            current_task = asyncio.current_task()
+            for task in list(self._background_tasks):
+                if task is not current_task:
+                    task.cancel()
+            self._message_queue.clear()
+            await self._disconnect()
 
     async def send(self, message: comms.Message, retry_policy: RetryPolicy) -> None:
         """Send a message to the AirTouch.
